@@ -13,7 +13,7 @@ import itertools
 import random
 import numpy as np
 from . import core
-from .core import Case, cD, clist, cstr
+from .core import Case, cOD, clist, cstr
 
 ID = "C18"
 PROPS_FILE = "Props/C18.v"
@@ -32,13 +32,16 @@ RULE = ("every (rows, cols, #data variables 1..4 (and data=None), #extra coordin
         "Datasets assembled coordinates-first (make_xarray_grid(data=None) then item assignment, DataArray.to_dataset(), "
         "xr.Dataset(coords=...) then assign) whose Dataset-level dimension order is the reverse of their variables' with 1..3 2-D extra "
         "coordinates; single-row (1 x n) and single-column (n x 1) 2-D coordinate inputs that are not meshgrids (northing varying along "
-        "the row / easting varying down the column) with genuine single row / column meshgrids as controls; arrays->grid->table round trips; "
+        "the row / easting varying down the column) with genuine single row / column meshgrids as controls; NaN-valued cells (a few cells, a whole row or column, one variable only, "
+        "one cell in every variable, only extra coordinates, a whole variable, a third of all entries) in data and extra coordinates for "
+        "make_xarray_grid, the round trip and grid_to_table on Datasets / DataArrays / members / coordinates-first Datasets, NaN compared "
+        "position by position; NaN inside 2-D coordinates (rejected); arrays->grid->table round trips; "
         "meshgrid_from_1d/meshgrid_to_1d compositions both ways; random larger grids up to 8 x 9. A case is non-trivial when the call is accepted and the grid has at "
         "least 2 cells; distinct = distinct (stream, input) pairs.")
 ASSUMPTIONS = [
     "xarray.Dataset(data_vars, coords) keeps the insertion order of coords and data_vars, raises ValueError on conflicting sizes and on equal dimension names (modelled by xr_dataset; the order is observed on every run)",
     "numpy.allclose is modelled in exact rational arithmetic with the double constants rtol=1e-5, atol=1e-8; generated perturbations are either 0, <= 1e-10 relative (accepted) or >= 1e-3 relative (rejected), never near the boundary",
-    "all values are finite doubles (ints are converted exactly); names are pairwise distinct; no zero-length axis in 2-D coordinate input; grid_to_table input has at least one data variable",
+    "array entries are finite doubles or NaN (passed as option D, None = NaN, compared position by position; infinities are not generated; ints are converted exactly); 1-D coordinate vectors are finite; names are pairwise distinct; no zero-length axis in 2-D coordinate input; grid_to_table input has at least one data variable",
     "numpy.meshgrid(e, n) is modelled by its definition (rows are copies of e; row i of the second output is constant n[i]); ndarray.ravel() is C order (concat of rows); pandas.DataFrame(dict) keeps key order",
 ]
 TRUSTED = ["python harness harness/c18.py (generators, conversion of xarray.Dataset / DataArray / pandas.DataFrame objects to model records, verdict parsing)"]
@@ -48,7 +51,10 @@ TRUSTED = ["python harness harness/c18.py (generators, conversion of xarray.Data
 # Coq literals
 # ---------------------------------------------------------------------------
 def cvec(v):
-    return clist([cD(x) for x in np.asarray(v, dtype=float).ravel()])
+    """every entry as option D: None is NaN (infinities are never generated)"""
+    v = np.asarray(v, dtype=float).ravel()
+    assert not np.isinf(v).any()
+    return clist([cOD(x) for x in v])
 
 
 def carr(a):
@@ -126,21 +132,28 @@ def ctable(t):
 
 BOGUS_DS = "(Some (mk_ds [] []))"           # never produced by the model: forces a disagreement
 BOGUS_TABLE = "(Some [])"
-BOGUS_MESH = "(Some ([[(1,0)%Z]], []))"    # a non-rectangular pair: never produced by the model
-BOGUS_VECS = "(Some ([], [(1,0)%Z; (1,0)%Z; (1,0)%Z; (1,0)%Z; (1,0)%Z; (1,0)%Z; (1,0)%Z]))"
+BOGUS_MESH = "(Some ([[Some (1,0)%Z]], []))"    # a non-rectangular pair: never produced by the model
+BOGUS_VECS = "(Some ([], [None; None; None; None; None; None; None; None; None; None; None]))"
+
+
+def _nonan(x):
+    if isinstance(x, list):
+        return [_nonan(y) for y in x]
+    return None if isinstance(x, float) and x != x else x
 
 
 def jarr(a):
-    return None if a is None else np.asarray(a, dtype=float).tolist()
+    """JSON-able nested lists; NaN is written as null"""
+    return None if a is None else _nonan(np.asarray(a, dtype=float).tolist())
 
 
 def jds(ds):
-    return {"coords": {str(k): [list(map(str, ds.coords[k].dims)), ds.coords[k].values.tolist()] for k in ds.coords.keys()},
-            "data_vars": {str(k): [list(map(str, ds[k].dims)), ds[k].values.tolist()] for k in ds.data_vars.keys()}}
+    return {"coords": {str(k): [list(map(str, ds.coords[k].dims)), jarr(ds.coords[k].values)] for k in ds.coords.keys()},
+            "data_vars": {str(k): [list(map(str, ds[k].dims)), jarr(ds[k].values)] for k in ds.data_vars.keys()}}
 
 
 def jtable(t):
-    return {str(c): np.asarray(t[c].values, dtype=float).tolist() for c in t.columns}
+    return {str(c): jarr(t[c].values) for c in t.columns}
 
 
 def run(f):
@@ -180,6 +193,50 @@ def field(rnd, nn, ne, base):
     return -a if rnd.random() < 0.25 else a
 
 
+NAN_PATTERNS = ["few", "row", "column", "one-var", "cell-all", "extra", "whole-var", "many"]
+
+
+def nanify(rnd, arrs, xs, pattern):
+    """put NaN into some cells (in place) of the data arrays [arrs] and / or the extra coordinates [xs]"""
+    every = list(arrs) + list(xs)
+    if not every:
+        return
+    nn, ne = every[0].shape
+    cell = lambda: (rnd.randrange(nn), rnd.randrange(ne))
+    if pattern == "extra" and not xs:
+        pattern = "few"
+    if pattern == "few":                # a few cells of a few arrays
+        for _ in range(rnd.randint(1, 3)):
+            rnd.choice(every)[cell()] = np.nan
+    elif pattern == "row":              # a whole row, in one array or in all of them
+        i = rnd.randrange(nn)
+        for a in (every if rnd.random() < 0.5 else [rnd.choice(every)]):
+            a[i, :] = np.nan
+    elif pattern == "column":
+        j = rnd.randrange(ne)
+        for a in (every if rnd.random() < 0.5 else [rnd.choice(every)]):
+            a[:, j] = np.nan
+    elif pattern == "one-var":          # several cells of one data variable only
+        a = rnd.choice(list(arrs) or every)
+        for _ in range(rnd.randint(1, max(1, nn * ne // 2))):
+            a[cell()] = np.nan
+    elif pattern == "cell-all":         # one cell, in every variable and extra coordinate
+        c = cell()
+        for a in every:
+            a[c] = np.nan
+    elif pattern == "extra":            # only in the extra coordinates
+        for _ in range(rnd.randint(1, 3)):
+            rnd.choice(list(xs))[cell()] = np.nan
+    elif pattern == "whole-var":        # one array entirely NaN
+        rnd.choice(every)[:, :] = np.nan
+    else:                               # "many": about a third of all entries
+        for a in every:
+            for i in range(nn):
+                for j in range(ne):
+                    if rnd.random() < 0.33:
+                        a[i, j] = np.nan
+
+
 def name_style(rnd, names):
     """str for a single name (sometimes), else list / tuple"""
     if len(names) == 1 and rnd.random() < 0.6:
@@ -187,7 +244,7 @@ def name_style(rnd, names):
     return list(names) if rnd.random() < 0.5 else tuple(names)
 
 
-def build(rnd, nn, ne, nd, nx, two_d, dims=None):
+def build(rnd, nn, ne, nd, nx, two_d, dims=None, nan=None):
     """a valid make_xarray_grid argument set"""
     e, n = axes(rnd, nn, ne)
     if two_d:
@@ -198,8 +255,12 @@ def build(rnd, nn, ne, nd, nx, two_d, dims=None):
     extras = [field(rnd, nn, ne, 5000.0 * (k + 1)) for k in range(nx)]
     if nd == 0:
         data, dnames = None, rnd.choice([None, "ignored", ["a", "b"]])
+        if nan:
+            nanify(rnd, [], extras, nan)
     else:
         arrs = [field(rnd, nn, ne, 100.0 * (k + 1)) for k in range(nd)]
+        if nan:
+            nanify(rnd, arrs, extras, nan)
         names = rnd.sample(DNAMES, nd)
         if nd == 1 and rnd.random() < 0.6:
             data = arrs[0]
@@ -236,7 +297,7 @@ def jargs(a):
 
 def repro_make(a, tail):
     def r(x):
-        return "np.array(%r)" % (np.asarray(x, dtype=float).tolist(),)
+        return ("np.array(%r)" % (np.asarray(x, dtype=float).tolist(),)).replace("nan", "np.nan")
     d = a["data"]
     ds = "None" if d is None else ("(" + "".join(r(x) + "," for x in d) + ")" if isinstance(d, tuple) else r(d))
     kw = "extra_coords_names=%r" % (a["xnames"],)
@@ -289,8 +350,8 @@ def case_table(vd, g, kind, stream_key, recipe):
         obs, out = BOGUS_TABLE, list(res)
     term = "c18_table %s %s" % (gin[1], obs)
     inp = {"stream": stream_key, "grid": (jds(g) if hasattr(g, "data_vars") else
-                                          {"name": g.name, "dims": list(g.dims), "values": g.values.tolist(),
-                                           "coords": {str(k): [list(map(str, g.coords[k].dims)), g.coords[k].values.tolist()] for k in g.coords.keys()}})}
+                                          {"name": g.name, "dims": list(g.dims), "values": jarr(g.values),
+                                           "coords": {str(k): [list(map(str, g.coords[k].dims)), jarr(g.coords[k].values)] for k in g.coords.keys()}})}
     repro = "import verde, numpy as np, xarray as xr; %s; print(verde.grid_to_table(g))" % recipe
     return Case(inp, out, term, repro, kind, nontrivial=(res[0] == "ok" and len(res[1]) >= 2))
 
@@ -299,10 +360,10 @@ def case_table(vd, g, kind, stream_key, recipe):
 # direct xarray construction for grid_to_table
 # ---------------------------------------------------------------------------
 def lit(x):
-    return "np.array(%r)" % (np.asarray(x).tolist(),)
+    return ("np.array(%r)" % (np.asarray(x).tolist(),)).replace("nan", "np.nan")
 
 
-def direct_grid(rnd, nn, ne, nd, nx, dims, perm, mode, transposed=(), as_int=False):
+def direct_grid(rnd, nn, ne, nd, nx, dims, perm, mode, transposed=(), as_int=False, nan=None):
     """build (grid, recipe).  mode: 'dataset' | 'named' | 'unnamed' | 'member'.
     perm: order in which the coordinates [d0, d1, extras...] are declared.
     transposed: set of ("data", k) / ("extra", k) stored as (d1, d0); "T": the DataArray itself is transposed."""
@@ -318,6 +379,8 @@ def direct_grid(rnd, nn, ne, nd, nx, dims, perm, mode, transposed=(), as_int=Fal
     arrs = [field(rnd, nn, ne, 100.0 * (k + 1)) for k in range(nd)]
     if as_int:
         arrs = [a.astype(int) for a in arrs]
+    elif nan:
+        nanify(rnd, arrs if mode in ("dataset", "member") else arrs[:1], xs, nan)
     decl = [(d0, "idx", n), (d1, "idx", e)] + [(xnames[k], ("extra", k), xs[k]) for k in range(nx)]
     decl = [decl[i] for i in perm]
     coords, csrc = {}, []
@@ -357,7 +420,7 @@ def direct_grid(rnd, nn, ne, nd, nx, dims, perm, mode, transposed=(), as_int=Fal
     return g, recipe
 
 
-def coords_first_grid(vd, rnd, nn, ne, nd, nx, dims, how, transposed=()):
+def coords_first_grid(vd, rnd, nn, ne, nd, nx, dims, how, transposed=(), nan=None):
     """a Dataset assembled coordinates-first, so that the Dataset-level dimension order is (d1, d0) while every
     variable is declared (d0, d1).  how: 'make-none' (make_xarray_grid(data=None) then item assignment) |
     'to_dataset' (a member DataArray of a complete grid turned back into a Dataset, other variables re-assigned) |
@@ -370,6 +433,8 @@ def coords_first_grid(vd, rnd, nn, ne, nd, nx, dims, how, transposed=()):
     dnames = rnd.sample(DNAMES, nd)
     xs = [field(rnd, nn, ne, 5000.0 * (k + 1)) for k in range(nx)]
     arrs = [field(rnd, nn, ne, 100.0 * (k + 1)) for k in range(nd)]
+    if nan:
+        nanify(rnd, arrs, xs, nan)
 
     def var(k):
         if ("data", k) in transposed:
@@ -450,7 +515,7 @@ def opt_pair(res, f):
 
 def case_from_to(vd, e, n, extras, kind, stream_key):
     def passthrough(out):
-        if len(out) != 2 + len(extras) or not all(np.array_equal(a, b) for a, b in zip(out[2:], extras)):
+        if len(out) != 2 + len(extras) or not all(np.array_equal(a, b, equal_nan=True) for a, b in zip(out[2:], extras)):
             raise RuntimeError("extra coordinates modified")
         return out
     r1 = run(lambda: passthrough(vd.utils.meshgrid_from_1d((e, n, *extras))))
@@ -743,6 +808,45 @@ def generate(tier, seed, mixed=True):
             nd = rnd.randint(1, 4) if mode in ("dataset", "member") else 1
             g, recipe = direct_grid(rnd, nn, ne, nd, nx, rnd.choice(DIMS[1:]), perm, mode)
             cases.append(case_table(vd, g, "table-large", "table", recipe))
+
+    # 5c. NaN-valued cells (masked grids): one row per cell, NaN preserved in place
+    k = 0
+    for (nn, ne) in shapes * (1 if quick else 3) + ([] if quick else big[::2]):
+        for pattern in NAN_PATTERNS:
+            k += 1
+            if quick and (nn * ne == 1 or (k + nn) % 2):
+                continue
+            nx = rnd.randint(0, 3)
+            r = k % 5
+            if r == 0:
+                a = build(rnd, nn, ne, rnd.randint(1, 4), nx, bool(k % 2), dims=DIMS[k % len(DIMS)], nan=pattern)
+                cases.append(case_make(vd, a, "make-nan", "make"))
+            elif r == 1:
+                a = build(rnd, nn, ne, rnd.randint(1, 4), nx, bool(k % 3), dims=DIMS[k % len(DIMS)], nan=pattern)
+                cases.append(case_round(vd, a, "round-nan", "round"))
+            elif r in (2, 3):
+                perm = list(range(2 + nx))
+                rnd.shuffle(perm)
+                mode = ["dataset", "named", "unnamed", "member"][(k // 5) % 4]
+                nd = rnd.randint(1, 4) if mode in ("dataset", "member") else 1
+                tr = set()
+                if r == 3 and mode == "dataset" and nd >= 2 and nn >= 2 and ne >= 2:
+                    tr.add(("data", rnd.randrange(1, nd)))
+                g, recipe = direct_grid(rnd, nn, ne, nd, nx, DIMS[1 + k % (len(DIMS) - 1)], perm, mode, transposed=tr, nan=pattern)
+                cases.append(case_table(vd, g, "table-nan-" + mode, "table-nan", recipe))
+            else:
+                g, recipe = coords_first_grid(vd, rnd, nn, ne, rnd.randint(1, 3), max(nx, 1), DIMS[1 + k % (len(DIMS) - 1)],
+                                              hows[k % 3], nan=pattern)
+                cases.append(case_table(vd, g, "table-nan-coords-first", "table-nan", recipe))
+    # NaN inside 2-D coordinates: allclose is False, so never a meshgrid
+    for it in range(8 if quick else 60):
+        nn, ne = rnd.choice(shapes)
+        a = build(rnd, nn, ne, rnd.randint(1, 2), rnd.randint(0, 1), True, dims=rnd.choice(DIMS))
+        (a["ce"] if it % 2 else a["cn"])[rnd.randrange(nn), rnd.randrange(ne)] = np.nan
+        if it % 3 == 0:
+            cases.append(case_to_from(vd, np.asarray(a["ce"]), np.asarray(a["cn"]), a["extras"], "reject-nan-coordinate", "to_from"))
+        else:
+            cases.append(case_make(vd, a, "reject-nan-coordinate", "make"))
 
     # 6. dims declared in a different order than the first variable's (the input class of finding F6)
     if mixed:
